@@ -13,7 +13,7 @@ def body_for(tag, nontrivial):
         n = 240 if ctx.tier == "quick" else 4000
         outdir, meta = ctx.harness("scope", n)
         ctx.correspond(outdir, nontrivial_tag=lambda t: any(x in t for x in nontrivial),
-                       ignore_spec=lambda item: not item.startswith(tag))
+                       ignore_spec=lambda item: not item.startswith(tag), shrink_group="scope")
         ctx.notes.append(f"unsupported-syntax programs skipped: {ctx.stats.get('unsupported_syntax', 0)}; not parseable as Lua 5.1: {ctx.stats.get('does_not_parse_as_lua51', 0)}")
     return body
 
@@ -22,5 +22,5 @@ ASSUME = [
     "full_moon's parser and its Visitor traversal order (the model reproduces the order hook by hook; any divergence shows up as a table mismatch)",
     "identifier identity: the Rust keys references by the token's byte range, the model by the token index (bijective on one file)",
     "the standard library enters through an oracle computed by the real code for the names / call paths of each program (global_has_fields, `observes: write` arguments); their agreement with the library definition is C06",
-    "resolution equivalence (scope-stack model = environment-passing resolver for every chunk) is not yet a Lean theorem for this model; it is checked three-way on every program",
+    "resolution equivalence is a Lean theorem for the resolution machine of Scope/Core.lean (C01_log); the machine's log and lint output are compared with the implementation on every program, as are the full model's tables",
 ]
